@@ -63,6 +63,7 @@ def observe(cfg, variant=0):
     proto, grid, params_of = build(cfg)
     sc = scorer(cfg["gib"])
     stubs.reset(TAG)
+    proto0 = repr(sorted((k, repr(v)) for k, v in proto.get_params(deep=True).items()))
     try:
         if cfg["kind"] == "grid":
             tuner = ForecastingGridSearchCV(proto, cv=cv, param_grid=grid, scoring=sc, refit=cfg["refit"],
@@ -96,6 +97,10 @@ def observe(cfg, variant=0):
              "best_score": int(round(F * float(tuner.best_score_))),
              "best_params": tabs.index(table_of(tuner.best_params_, cfg)) + 1,
              "windows": windows}
+        # the template: same object, same parameters, unfitted; the refitted best forecaster is another object
+        o["template"] = bool(tuner.forecaster is proto and not getattr(proto, "_is_fitted", False)
+                             and repr(sorted((k, repr(v)) for k, v in proto.get_params(deep=True).items())) == proto0
+                             and getattr(tuner, "best_forecaster_", None) is not proto)
         # independent evaluate() per candidate
         indep = []
         for i in range(len(tabs)):
@@ -138,6 +143,12 @@ def observe(cfg, variant=0):
             o["refit_window"] = [0, 0]
             o["delegates"] = False
             o["cutoff"] = -1
+        # a second fit of the very same tuner object
+        first = (res[col].tolist(), int(tuner.best_index_), float(tuner.best_score_), repr(tuner.best_params_))
+        with joblib.parallel_backend("threading"):
+            tuner.fit(y)
+        res2 = tuner.cv_results_
+        o["again"] = bool((res2[col].tolist(), int(tuner.best_index_), float(tuner.best_score_), repr(tuner.best_params_)) == first)
         return o
     except Exception as e:
         import traceback
